@@ -619,6 +619,21 @@ def check_c03(prop, tier, seed, devices):
             body = [instr(mn, *(ops_pre + [ARG(0)]))]
             prog = [line("macro", n="go")] + body + [line("endm")] + [instr("nop") for _ in range(6)] + [instr("nop", lab="here"), call("go", E(copy.deepcopy(tgt))), instr("ret")]
             cases.append(Case(prog, tag="macro-target"))
+    # pc in the first item of a block: after an origin, at the start of the program, after a block of another segment
+    for kind in (("rjmp", None), ("rcall", None), ("brne", None), ("brbs", 4)):
+        mn, sbit = kind
+        ops_pre = [E(sbit)] if sbit is not None else []
+        for off in (0, 1, -1, 2, -16):
+            tgt = E(pc_target("pc", off))
+            cases.append(Case([instr("nop"), org(0x10), instr(mn, *(ops_pre + [copy.deepcopy(tgt)])), instr("ret")], tag="pc-first-item"))
+            cases.append(Case([org(0x20), instr(mn, *(ops_pre + [copy.deepcopy(tgt)])), instr("ret")], tag="pc-first-item"))
+            cases.append(Case([instr("nop"), instr("nop"), seg("eeprom"), data(1, E(1), E(2), E(3)), seg("code"), instr(mn, *(ops_pre + [copy.deepcopy(tgt)])), instr("ret")], tag="pc-first-item"))
+            cases.append(Case([instr("nop"), seg("data"), setv("q", 1), byte(2), seg("code"), instr(mn, *(ops_pre + [copy.deepcopy(tgt)])), instr("ret")], tag="pc-first-item"))
+        # a macro that declares a variable in another segment and comes back, called between instruction and target
+        for d in (1, 5, 62, 63):
+            var = [line("macro", n="defvar"), seg("data"), byte(arg(0)), seg("code"), line("endm")]
+            prog = var + [org(0x10), instr("nop"), instr(mn, *(ops_pre + [E(sym("target"))]))] + [instr("nop") for _ in range(d - 1)] + [call("defvar", E(2))] + [instr("nop", lab="target"), instr("ret")]
+            cases.append(Case(prog, tag="macro-between"))
     for gap in (2, 4, 0x20):
         for kind in (("rjmp", None), ("brne", None), ("rcall", None)):
             mn, sbit = kind
@@ -1170,6 +1185,14 @@ def check_c08(prop, tier, seed, devices):
                 prog = [copy.deepcopy(opener), instr("ret"), line("if", e=lit(1), pfx=pfx), instr("nop"), line("elif", e=copy.deepcopy(cond), pfx=pfx), instr("ret"),
                         line("endif", pfx=pfx), line("endif", pfx=pfx), instr("sleep")]
                 cases.append(Case(prog, tag="too-deep-conditional"))
+    # an .elif whose line no grammar takes, reached when no branch before it was assembled: it is its turn, the build fails
+    for pfx in (".", "#"):
+        for outer in (None, 1):
+            chain = [line("if", e=lit(0), pfx=pfx), instr("nop"), line("elif", e=binop("==", arg(1), lit(1)), pfx=pfx), instr("ret"), line("else", pfx=pfx), instr("sleep"), line("endif", pfx=pfx)]
+            prog = ([line("if", e=lit(1), pfx=pfx)] if outer else []) + chain + ([line("endif", pfx=pfx)] if outer else []) + [instr("sei")]
+            cases.append(Case(prog, tag="elif-unparsable-in-turn"))
+            chain2 = [line("ifdef", n="NOPE", pfx=pfx), instr("nop"), line("elif", e=lit(0), pfx=pfx), instr("cli"), line("elif", e=arg(0), pfx=pfx), instr("ret"), line("endif", pfx=pfx)]
+            cases.append(Case(([line("if", e=lit(1), pfx=pfx)] if outer else []) + chain2 + ([line("endif", pfx=pfx)] if outer else []) + [instr("sei")], tag="elif-unparsable-in-turn"))
     # text that merely begins like a conditional directive is text
     for junk in (".endif_x", ".else2", ".if2", "#endif9", ".elif_", ".ifdefx FLAG", ".endifs", ".iff 1"):
         for outer in (0, 1):
@@ -1366,8 +1389,16 @@ def check_c15(prop, tier, seed, devices):
             calls_ = [call("talk", E(1 if sameargs else k)) for k in range(ncalls)]
             prog = [line("message", txt="top first"), line("macro", n="talk")] + body + [line("endm")] + calls_ + [line("warning", txt="top last"), instr("sleep")]
             cases.append(Case(prog, tag="messages-in-macro", chkline=True, msg_texts=texts + ["cond note", "top first", "top last"]))
+    for blank in ("", " ", "   "):
+        for kinds3 in (("message", "warning", "error"), ("error",), ("warning", "message"), ("message", "error", "message")):
+            prog = [instr("nop")] + [line(k_, txt=blank) for k_ in kinds3] + [instr("ret")]
+            cases.append(Case(prog, tag="messages-blank", chkline=True, msg_texts=[blank]))
+            prog = [line("if", e=lit(0)), line("error", txt=blank), line("elif", e=lit(1))] + [line(k_, txt=blank) for k_ in kinds3] + [line("endif"), instr("ret")]
+            cases.append(Case(prog, tag="messages-blank", chkline=True, msg_texts=[blank]))
+            prog = [line("macro", n="say")] + [line(k_, txt=blank) for k_ in kinds3] + [line("endm"), instr("nop"), call("say"), instr("ret")]
+            cases.append(Case(prog, tag="messages-blank", chkline=True, msg_texts=[blank]))
     return run_cases(prop, tier, seed, cases, devices, keyf=default_key,
-                     rule="messages from macro bodies called one to three times with equal and different arguments; 5 valid base programs x every insertion position x %d single-line faults (syntax, unknown mnemonic, wrong kind, "
+                     rule="messages with empty and blank texts; messages from macro bodies called one to three times with equal and different arguments; 5 valid base programs x every insertion position x %d single-line faults (syntax, unknown mnemonic, wrong kind, "
                           "out of range also by a multiple of 256 / 65536, undefined symbol in instruction/data/.set/.if/.elif also beside a deciding && / ||, zero divisor, misfit, string in .dw, "
                           "duplicate label, .error), each built as is and "
                           "shifted down by 7 lines; the error text must contain the specification's fault line as an integer token both times; "
@@ -1475,6 +1506,12 @@ def check_c12(prop, tier, seed, devices):
     cases.append(Case([line("device", n="ATmega8"), line("device", n="ATmega16"), instr("nop")], tag="second-device"))
     cases.append(Case([line("device", n="ATmega8"), line("device", n="ATmega8"), instr("nop")], tag="second-device"))
     cases.append(Case([instr("nop"), line("device", n="ATmega8"), instr("nop")], tag="device-after-code"))
+    chipA = [line("macro", n="chipa"), line("device", n="ATtiny13"), line("endm")]
+    chipB = [line("macro", n="chipb"), line("device", n="ATmega128"), line("endm")]
+    cases.append(Case(chipA + [line("device", n="ATmega128"), call("chipa"), org(0x300), instr("nop")], tag="second-device", mat=False))
+    cases.append(Case(chipA + [call("chipa"), line("device", n="ATmega128"), org(0x300), instr("nop")], tag="second-device", mat=False))
+    cases.append(Case(chipA + chipB + [call("chipa"), call("chipb"), org(0x300), instr("nop")], tag="second-device", mat=False))
+    cases.append(Case(chipA + [call("chipa"), call("chipa"), instr("nop")], tag="second-device"))
     for text in ('.device "ATtiny13"', ".device 42", ".device ATmega48+1", ".device ATmega48, ATmega88", ".device ATmega48 ATmega88", ".device", ".device (ATmega8)"):
         cases.append(Case([line("garbage", text=text), org(0x3000), instr("nop")], tag="device-malformed", mat=False))
     for name in sorted(devices):
@@ -1601,6 +1638,7 @@ def macro_bodies():
     out.append(("third", "eee", [data(1, ARG(2), ARG(0))]))
     # bodies are kept as written: letters of strings and character constants, names of conditional symbols
     out.append(("text", "e", [data(1, S("Hello, World"), E(chrlit(ord("A"))), ARG(0), S("MiXeD cAsE"), E(chrlit(ord("z"))))]))
+    out.append(("textsemi", "e", [data(1, S("a;b // c /* d"), E(chrlit(ord(";"))), ARG(0), S(";")), instr("cpi", R(16), E(chrlit(ord(";"))))]))
     out.append(("textr", "r", [instr("ldi", ARG(0), E(chrlit(ord("Q")))), instr("cpi", ARG(0), E(binop("+", chrlit(ord("a")), lit(1))))]))
     out.append(("flagged", "e", [line("ifdef", n="DeBug"), data(1, ARG(0)), line("else"), data(1, E(0x77)), line("endif"),
                                  line("ifndef", n="RELEASE"), data(1, E(0x55)), line("endif")]))
